@@ -301,8 +301,10 @@ Theorem C15_layout_constants :
 Proof. repeat split; reflexivity. Qed.
 Print Assumptions C15_layout_constants.
 
-(* slice bounds and lengths used by unlock_private_key / EncodedPk::try_from / decode_public_key in the CURRENT sources
-   (the model hard-codes the documented layout; the translator re-extracts the literals on every run) *)
+(* slice bounds and lengths used by unlock_private_key / EncodedPk::try_from / decode_public_key in the CURRENT sources.
+   The model READS them (Keyring.ul_version_end .. ul_ct_hi, dp_pk_end, dp_ck_start, dp_checksum_len, and
+   pk_string_ok tests x_kr_encoded_pk_try_len; C15_slices_read_by_model below), so every theorem about unlock /
+   decode is re-proved against the literals the translator extracts on every run; this pin states their values *)
 Theorem C15_slice_constants :
   x_kr_unlock_version_end = 4%N /\ x_kr_unlock_salt_lo = 4%N /\ x_kr_unlock_salt_hi = 36%N /\
   x_kr_unlock_ct_lo = 36%N /\ x_kr_unlock_ct_hi = 84%N /\ x_kr_unlock_ct_hi = x_kr_private_key_ct_len /\
@@ -362,3 +364,18 @@ Theorem C15_lock_layout_constants :
   (forall (P : prims) (pk : bytes), pk_blob P pk = pk ++ firstn (N.to_nat x_kr_encode_ck_len) (p_hash P pk)).
 Proof. repeat split; intros; reflexivity. Qed.
 Print Assumptions C15_lock_layout_constants.
+
+(* the model's unlock_private_key / decode_public_key / EncodedPk::try_from cut where the SOURCE's literals say (by definition: the bounds are the extracted constants, not numbers written in the model) *)
+Theorem C15_slices_read_by_model :
+  ul_version_end = N.to_nat x_kr_unlock_version_end /\
+  ul_salt_lo = N.to_nat x_kr_unlock_salt_lo /\ ul_salt_hi = N.to_nat x_kr_unlock_salt_hi /\
+  ul_ct_lo = N.to_nat x_kr_unlock_ct_lo /\ ul_ct_hi = N.to_nat x_kr_unlock_ct_hi /\
+  dp_pk_end = N.to_nat x_kr_decode_pk_end /\ dp_ck_start = N.to_nat x_kr_decode_ck_start /\
+  dp_checksum_len = N.to_nat x_kr_checksum_len /\
+  (forall s : text, pk_string_ok s =
+     match b64_decode s with
+     | Some b => Nat.eqb (length b) (N.to_nat x_kr_encoded_pk_try_len)
+     | None => false
+     end).
+Proof. exact (slices_read_extracted). Qed.
+Print Assumptions C15_slices_read_by_model.
